@@ -1,6 +1,7 @@
 package main
 
 import (
+	"encoding/json"
 	"os"
 
 	"github.com/spq/pkappa2/verif/bsim"
@@ -15,4 +16,12 @@ var engines = map[string]sim.Engine{
 
 func init() {
 	mgrsim.VconvPath = os.Getenv("VERIF_VCONV")
+	if k := os.Getenv("VERIF_KNOWN"); k != "" {
+		var l []string
+		if json.Unmarshal([]byte(k), &l) == nil {
+			for _, x := range l {
+				sim.Known[x] = true
+			}
+		}
+	}
 }
